@@ -261,6 +261,23 @@ mod hooked {
                     out(Message::Handshake(mk_sink::<(usize, usize, usize)>(Arc::clone(&s))));
                 }
             },
+            "takecombine" => match nth {
+                2 => {
+                    let out = take(n)(Arc::new(combine((
+                        Arc::clone(&members[0]),
+                        Arc::clone(&members[1]),
+                    ))));
+                    out(Message::Handshake(mk_sink::<(usize, usize)>(Arc::clone(&s))));
+                }
+                _ => {
+                    let out = take(n)(Arc::new(combine((
+                        Arc::clone(&members[0]),
+                        Arc::clone(&members[1]),
+                        Arc::clone(&members[2]),
+                    ))));
+                    out(Message::Handshake(mk_sink::<(usize, usize, usize)>(Arc::clone(&s))));
+                }
+            },
             other => panic!("unknown sys {}", other),
         }
 
